@@ -428,6 +428,15 @@ def type_invariants(tb):
                 a = ("fld", ("deref", ("arg", i, ty)), ia, na, "usize")
                 b = ("fld", ("deref", ("arg", i, ty)), ib, nb, "usize")
                 out.append(("cmp", "Le", a, b))
+            _IN_INVARIANTS[0] = True
+            try:
+                si_ = INV.stride_invariants(F)
+            finally:
+                _IN_INVARIANTS[0] = False
+            for (ir, nr, tyr, id_, nd) in si_.get(path, []):
+                r_ = ("fld", ("deref", ("arg", i, ty)), ir, nr, tyr)
+                d_ = ("fld", ("deref", ("arg", i, ty)), id_, nd, "usize")
+                out.append(("cmp", "Eq", ("bin", "Rem", ("len", r_), d_, "usize"), ("c", 0)))
     return out
 
 
